@@ -291,6 +291,10 @@ class Model:
         w.drain_all()
         w.take_log()
 
+    def future(self, w):
+        return e1.drain_future(self, w, [('loss', s)
+                                         for s in range(self.T)])
+
     def canon(self, w):
         conn = tuple(sorted(w.conn))
         pend = tuple(sorted((s, p[0], p[1], len(p[4]))
@@ -403,14 +407,20 @@ def run(tier, seed, result):
     for is_async in (False, True):
         for ah in (False, True):
             for layout in (1, 2):
-                params = dict(is_async=is_async, async_handlers=ah,
-                              layout=layout, seed=seed,
-                              T=2 if tier == 'quick' else 3)
                 depth = 30
-                st = e1.explore('c05', params, result, max_depth=depth)
-                closure = closure and st['closure']
-                notes.append('async=%s ah=%s layout=%d: %s' % (
-                    is_async, ah, layout, st))
+                # thorough: the larger scope, then the small scope again
+                # with the "every transport is lost" look-ahead as part of
+                # the state identity (e1.drain_future)
+                for T, fut in ([(2, False)] if tier == 'quick'
+                               else [(3, False), (2, True)]):
+                    params = dict(is_async=is_async, async_handlers=ah,
+                                  layout=layout, seed=seed, T=T)
+                    st = e1.explore('c05', params, result, max_depth=depth,
+                                    use_future=fut)
+                    closure = closure and st['closure']
+                    notes.append('async=%s ah=%s layout=%d T=%d look-ahead='
+                                 '%s: %s' % (is_async, ah, layout, T, fut,
+                                             st))
     from . import c05_sched
     notes.append(c05_sched.run(tier, seed, result))
     result.assumptions += [
